@@ -88,6 +88,10 @@ func H_C10_source_untouched() {
 	verif.Assert(before.same(snap(handle, opts...)), "C10/source observers unchanged by Merge")
 	verif.Assert(beforeRoot.same(snap(src, opts...)), "C10/source root observers unchanged by Merge")
 
+	// structurally: no mutable storage is reachable from both sides (metadata records and the parsed
+	// reference expressions are shared on purpose and never written: that is C11's write monitor)
+	verif.Disjoint("C10/destination and source share no mutable storage", dst, src, "*ucfg.Meta", "ucfg.dynValue")
+
 	// afterwards: writes on one side are invisible on the other
 	dstBefore := snap(dst, opts...)
 	switch verif.Choice("later", 8) {
